@@ -320,6 +320,62 @@ func checkC19(c C19Case, o *Obs) error {
 			return fmt.Errorf("after restoring the tree: %v", err)
 		}
 	}
+	// The caller edits the tree between two traversals without changing any node's number of
+	// children - it reverses every Children slice in place (ladderising), then replaces one child
+	// by a new node - and traverses again with fresh iterator values: each traversal is about the
+	// tree as it is then.
+	if len(nodes) >= 3 && len(nodes) <= 2000 {
+		o.Class("tree edited between two traversals")
+		fresh := func(what string) error {
+			for _, pre := range []bool{true, false} {
+				name, want, it := "PostOrder", refPostOrder(root, nil), root.PostOrder()
+				if pre {
+					name, want, it = "PreOrder", refPreOrder(root, nil), root.PreOrder()
+				}
+				var got []*newick.Node
+				if p := catch(func() {
+					for n := range it {
+						got = append(got, n)
+						if len(got) > len(want)+4 {
+							break
+						}
+					}
+				}); p != nil {
+					return fmt.Errorf("%s after %s panicked: %v", name, what, p)
+				}
+				if !slices.Equal(got, want) {
+					return fmt.Errorf("%s after %s (earlier traversals of the same tree were complete): yields %d nodes that differ from the recursive order of the tree as it is now (%d nodes; original parents %s)", name, what, len(got), len(want), abbreviateInts(pa))
+				}
+			}
+			return nil
+		}
+		for _, n := range nodes {
+			slices.Reverse(n.Children)
+		}
+		err := fresh("the caller reversed every Children slice in place")
+		for _, n := range nodes {
+			slices.Reverse(n.Children)
+		}
+		if err != nil {
+			return err
+		}
+		// replace the last child of the last inner node by a new leaf (same child counts everywhere)
+		for i := len(nodes) - 1; i >= 0; i-- {
+			if k := len(nodes[i].Children); k > 0 && len(nodes[i].Children[k-1].Children) == 0 {
+				old := nodes[i].Children[k-1]
+				nodes[i].Children[k-1] = &newick.Node{Name: "replacement"}
+				err := fresh("the caller replaced one leaf by a new node")
+				nodes[i].Children[k-1] = old
+				if err != nil {
+					return err
+				}
+				break
+			}
+		}
+		if err := sameSnapshot(nodes, snap); err != nil {
+			return fmt.Errorf("after restoring the tree: %v", err)
+		}
+	}
 	// Nested traversals: while an outer traversal is being consumed, the loop body walks the
 	// subtree of every yielded node; both must stay correct.
 	if len(nodes) <= 150 {
@@ -495,6 +551,26 @@ func exhaustiveC19(thorough bool, emit func(C19Case) bool) {
 			}
 			return emit(C19Case{Tree: gen.TreeSpec{Parents: p}})
 		}) {
+			return
+		}
+	}
+	// wide nodes below wide nodes: a node with F children whose first child has F children, whose
+	// first child has F children again; the root's sixth child is wide too
+	for _, f := range []int{300, 1025, 2100} {
+		var p []int // Parents: parent of node i+1
+		add := func(parent, k int) (first int) {
+			first = len(p) + 1
+			for i := 0; i < k; i++ {
+				p = append(p, parent)
+			}
+			return first
+		}
+		a := add(0, f)
+		b := add(a, f)
+		add(b, f)
+		add(a+5, f)
+		add(a+f-1, 3)
+		if !emit(C19Case{Tree: gen.TreeSpec{Parents: p}}) {
 			return
 		}
 	}
